@@ -179,6 +179,9 @@ class Path:
         self.index_funcs = list(ctx.index_funcs)
         self.index_seeds = list(ctx.index_seeds)
         self.notes = list(ctx.notes)
+        self.stats = list(getattr(ctx, "stats", []))
+        self.reductions = list(getattr(ctx, "reductions", []))
+        self.ghost = dict(getattr(ctx, "ghost", {}))
 
     @property
     def raised(self):
